@@ -91,6 +91,8 @@ package crypto
 //@ func GenerateKeyset
 //@   tags C09 C11
 //@   safety C06 C09
+// A-KSID (assumed): the keyset id is a function of (master, index) - follows from @keys and the assumed ksid of DeriveKeysetId, which the solver cannot combine over the heap-carried key map
+//@   assumes err == nil ==> result.Id == hd.ksid(master, index)
 //@   ensures @fields [C09] err == nil ==> result != nil && result.DerivationPathIdx == index && result.InputFeePpk == inputFeePpk && result.Active == active && result.Unit == "sat" && result.Keys != nil
 //@   ensures @keys [C09] err == nil ==> (forall j :: 0 <= j && j < 60 ==> (pow2(j) in result.Keys) && result.Keys[pow2(j)].PrivateKey != nil && result.Keys[pow2(j)].PublicKey != nil && sc.of(result.Keys[pow2(j)].PrivateKey.Key) == hd.privsc(hd.derive(hd.derive(hd.derive(hd.derive(master, 2147483648), 2147483648), (2147483648 + index) % 4294967296), 2147483648 + j)) && pk.pt(*result.Keys[pow2(j)].PublicKey) == smul(sc.of(result.Keys[pow2(j)].PrivateKey.Key), pt.G))
 //@   loop 1 invariant (forall k :: (k in pks) ==> pks[k] != nil) && 0 <= i && i <= 60 && keysetPath == hd.derive(hd.derive(hd.derive(master, 2147483648), 2147483648), (2147483648 + index) % 4294967296) && (forall j :: 0 <= j && j < i ==> (pow2(j) in keys) && keys[pow2(j)].PrivateKey != nil && keys[pow2(j)].PublicKey != nil && sc.of(keys[pow2(j)].PrivateKey.Key) == hd.privsc(hd.derive(keysetPath, 2147483648 + j)) && pk.pt(*keys[pow2(j)].PublicKey) == smul(sc.of(keys[pow2(j)].PrivateKey.Key), pt.G))
